@@ -256,7 +256,7 @@ SUBS = [
         nontrivial=nontrivial, classes=classes, n={"quick": 2, "thorough": 40}, shards={"quick": 8, "thorough": 16}),
     Sub("big-glencoe", check, gen=lambda tier: gen_for("glencoe", S.GLENCOE_3P, EF.emit_glencoe, max_feats=500, min_feats=250),
         nontrivial=nontrivial, classes=classes, n={"quick": 2, "thorough": 40}, shards={"quick": 8, "thorough": 16}),
-    Sub("big-afm", check, gen=lambda tier: gen_for("afm", S.AFM, EF.emit_afm, max_feats=400, min_feats=200),
+    Sub("big-afm", check, gen=lambda tier: gen_for("afm", S.AFM, EF.emit_afm, max_feats=200, min_feats=100),
         nontrivial=nontrivial, classes=classes, n={"quick": 2, "thorough": 40}, shards={"quick": 8, "thorough": 16}),
     Sub("glencoe", check, gen=lambda tier: gen_for("glencoe", S.GLENCOE_3P, EF.emit_glencoe), nontrivial=nontrivial,
         classes=classes, n=N,
